@@ -9,6 +9,7 @@ mod segs;
 mod mtu;
 mod txring;
 mod util;
+mod vsock;
 mod wire;
 
 pub struct St {
@@ -17,6 +18,7 @@ pub struct St {
     pub tx: txring::TxSt,
     pub rx: rx::RxSt,
     pub segs: segs::SegSt,
+    pub vs: vsock::Vs,
 }
 
 fn step(st: &mut St, line: &str) -> String {
@@ -29,6 +31,7 @@ fn step(st: &mut St, line: &str) -> String {
         Some((&"tx", args)) => txring::step_txring(&mut st.tx, args),
         Some((&"rx", args)) => rx::step_rx(&mut st.rx, args),
         Some((&"seg", args)) => segs::step_segs(&mut st.segs, args),
+        Some((&"vs", args)) => vsock::step_vs(&mut st.vs, args),
         Some((&"rtte", args)) => pure::step_rtte(&mut st.rtte, args),
         _ => "bad-op".into(),
     }
@@ -40,18 +43,26 @@ fn main() {
     let stdin = std::io::stdin();
     let stdout = std::io::stdout();
     let mut out = std::io::BufWriter::new(stdout.lock());
+    // `--interactive`: flush after every line (used by generators that react to the implementation's output)
+    let interactive = std::env::args().any(|a| a == "--interactive");
     let mut st = St {
         rtte: Default::default(),
         mtu: librqbit_utp::mtu::SegmentSizes::new(Default::default()),
         tx: txring::TxSt::new(16),
         rx: rx::RxSt::new(64, 8),
         segs: segs::SegSt::new(0),
+        vs: vsock::Vs::new(),
     };
     for line in stdin.lock().lines() {
         let line = line.unwrap();
         let res = std::panic::catch_unwind(std::panic::AssertUnwindSafe(|| step(&mut st, &line)));
         match res {
-            Ok(s) => writeln!(out, "{s}").unwrap(),
+            Ok(s) => {
+                writeln!(out, "{s}").unwrap();
+                if interactive {
+                    out.flush().unwrap();
+                }
+            }
             Err(e) => {
                 let msg = e
                     .downcast_ref::<String>()
